@@ -333,6 +333,12 @@ fn oracle(cfg: &Cfg, mode: Mode, data: &[u8], w: &mut World, op: &ROp, before: &
     if buf.len() != buf_len {
         p.push(("content", format!("buf().len() {} != buf_len() {}", buf.len(), buf_len)));
     }
+    // buf_ptr() is the safe accessor callers combine with buf_len() for their own raw loads: it
+    // must designate the first byte of the exposed window
+    if w.reader.buf_ptr() != w.reader.buf().as_ptr() {
+        let cat = if mode == Mode::C14 { "safety" } else { "content" };
+        p.push((cat, format!("buf_ptr() is {} bytes away from buf().as_ptr()", (w.reader.buf_ptr() as isize).wrapping_sub(w.reader.buf().as_ptr() as isize))));
+    }
     if cursor + buf.len() > stream.len() || buf[..] != stream[cursor..cursor + buf.len()] {
         let cat = if mode == Mode::C14 { "safety" } else { "content" };
         p.push((cat, format!("buf() = {:?} is not the stream at the cursor ({cursor}): expected a prefix of {:?}", buf, &stream[cursor.min(stream.len())..])));
